@@ -12,6 +12,7 @@ granularity on a sample and on every violating case.
 import io
 import itertools
 import os
+import shutil
 import re
 
 from cbimon.oracles import cscan, gcc
@@ -52,7 +53,8 @@ def required_cells(tier):
     cells = [f"eol:{s}" for s in cscan.STATE_NAMES if s not in ("STRING", "CHAR")]
     cells += ["splice", "splice-in-comment", "splice-in-directive", "directive", "directive-multi-line",
               "comment-marker-in-literal", "quote-in-comment", "no-final-newline", "class:E1", "class:E2", "class:R",
-              "via-FileParser", "gcc-crosscheck", "crlf-line-ends", "class:LONG", "line>65536"]
+              "via-FileParser", "gcc-crosscheck", "crlf-line-ends", "class:LONG", "line>65536",
+              "c-header-first-reached-from-fortran"] + ["ext:" + e for e in C_FAMILY_EXTS]
     return cells
 
 
@@ -230,6 +232,9 @@ def check_text(ctx, text, cls, work, sample_rng, via_file=False):
         if not problems and len(text) % 3 == 0 and "\r" not in text:
             problems = file_parser_check(ctx, text, ref, work, crlf=True)
             cells.add("crlf-line-ends")
+        if not problems and cls == "R" and len(text) % 5 == 1 and "#" not in text:
+            problems = mixed_language_check(ctx, text, ref, work)
+            cells.add("c-header-first-reached-from-fortran")
     if not problems:
         acc.held(cells=cells, nontrivial=nontrivial, cls=cls,
                  sample={"text": text, "counted": ref.counted, "directive_lines": sorted(ref.directive)})
@@ -247,11 +252,48 @@ def check_text(ctx, text, cls, work, sample_rng, via_file=False):
                  mechanism=mech, cells=cells, nontrivial=nontrivial, cls=cls)
 
 
+C_FAMILY_EXTS = [".c", ".h", ".cpp", ".hpp", ".cc", ".cxx", ".inc", ".inl", ".cu", ".cuh", ".cl", ".icc", ".tcc", ".ipp", ".hh",
+                 ".hxx", ".h++", ".c++"]
+
+
+def mixed_language_check(ctx, text, ref, work):
+    """The text is a member header with a C extension that is reached FIRST through an #include in a free-form Fortran
+    file (the only compile command): a member file is scanned according to its own extension."""
+    from codebasin import preprocessor
+    from cbimon import cbi
+    d = os.path.join(work, "mixed")
+    shutil.rmtree(d, ignore_errors=True)
+    os.makedirs(d)
+    hdr = os.path.join(d, "cfg" + C_FAMILY_EXTS[len(text) % 4])
+    with open(hdr, "w") as f:
+        f.write(text)
+    src = os.path.join(d, "prog.F90")
+    with open(src, "w") as f:
+        f.write("program p\n#include \"%s\"\nend program p\n" % os.path.basename(hdr))
+    try:
+        state, _ = cbi.run_find(d, {"p": [cbi.entry(src, [], [d])]})
+        tree = state.get_tree(hdr)
+    except Exception as e:
+        return [{"kind": "exception-mixed-language-run", "observed": f"{type(e).__name__}: {e}"}]
+    ctx.acc.hook("H-mixed-language-find")
+    if tree is None:
+        return [{"kind": "member header not parsed"}]
+    seen = sorted(ln for node in tree.walk() if isinstance(node, preprocessor.CodeNode) for ln in node.lines)
+    if seen != ref.counted:
+        return [{"kind": "counted-set of a C header first reached from Fortran", "expected": ref.counted, "observed": seen}]
+    return []
+
+
 def file_parser_check(ctx, text, ref, work, crlf=False):
     """Same text through FileParser.parse_file on a real file: node.lines, node classes, total_sloc.
-    crlf: the file is written with CRLF line ends (same physical lines, same expected classes)."""
+    crlf: the file is written with CRLF line ends (same physical lines, same expected classes).
+    The file name cycles through every extension of the C family."""
     from codebasin import file_parser, preprocessor
-    path = os.path.join(work, "fp.c")
+    for old in os.listdir(work):
+        if old.startswith("fp."):
+            os.unlink(os.path.join(work, old))
+    path = os.path.join(work, "fp" + C_FAMILY_EXTS[(len(text) + text.count("/")) % len(C_FAMILY_EXTS)])
+    ctx.acc.cells["ext:" + os.path.splitext(path)[1]] += 1
     with open(path, "w", newline="") as f:
         f.write(text.replace("\n", "\r\n") if crlf else text)
     problems = []
